@@ -19,8 +19,8 @@ REFUTED = [
     "uninitialised memory; repaired by /repo commit 9179588 = fixes/C18-divide-uninitialised.patch)",
 ]
 PARTIAL = [
-    "C18_values_stay_attached_partial: depth values, under the side condition that no two entries of a call collocate with the same "
-    "existing vertex; interval values are covered by model + oracle only (no theorem)",
+    "C18_values_stay_attached_partial / _calls_partial (depth values) and C18_interval_values_stay_attached_partial (from-to values): under "
+    "the side condition that no two entries of a data set collocate with the same existing vertex / cell",
     "the direction of an (azimuth, dip) pair is a function parameter of the theorems (float trigonometry not proved; correspondence on "
     "axis-aligned directions, oracle on arbitrary angles to 1e-9)",
     "np.searchsorted on the augmented depth table is modelled as `number of entries < d` (equal for non-decreasing tables, the stated domain)",
@@ -58,8 +58,9 @@ LEVEL_TEXT = (
     "location_k + (d - depth_k) * deviation_k, where deviation_k is the mean of the two station directions when the leg has a length and "
     "the common direction when they coincide; legs join (location_{k+1} = location_k + length_k * deviation_k) and desurveying a station's "
     "own depth yields that station's location (continuity); beyond the last station the last leg's deviation is continued. For all "
-    "histories of depth / from-to additions: every vertex with a DEPTH value sits at the position of that depth, every cell joins the "
-    "positions of its FROM and TO values, all arrays stay aligned (through sort_depths). Partial: values stay attached under a side "
+    "histories of add_data calls (any number of depth / from-to data sets per call): every vertex with a DEPTH value sits where "
+    "desurvey puts that depth (C18_vertex_on_surveyed_path; in leg k at loc_k + (d - depth_k) * dev_k, C18_vertex_in_leg), every cell joins the "
+    "desurveyed positions of its FROM and TO values, all arrays stay aligned (through sort_depths). Partial: values stay attached under a side "
     "condition (refuted without it: open finding); the direction map (trigonometry) is a parameter; np.divide(where=) without out= is "
     "repaired by a fix patch (the unrepaired code reads uninitialised memory; probed by the oracle with a poisoned output). The model is "
     "tied to the code on every run by evaluating it inside Coq on generated inputs."
